@@ -287,21 +287,12 @@ class IoOps(Spec):
                 ('second: OUTPUT, inputs ARE subgraph.outputs, no outputs', And(h.load(b, 'op_key') == strlit(K_OUT), h.load(b, 'inputs') == S.o0, ln(h, h.load(b, 'outputs')) == 0)),
                 ('subgraph-not-written', And(h.load(S.sg, 'inputs') == S.i0, h.load(S.sg, 'outputs') == S.o0, ln(h, S.i0) == ln(S.h0, S.i0), ln(h, S.o0) == ln(S.h0, S.o0)))]
 
-# ---------------------------------------------------------------------------------------------------- glue (pyvc.verify for a custom engine class)
+# ---------------------------------------------------------------------------------------------------- glue
 def run_function(fn, spec, engine=EngineX):
-    E = engine(fn, spec); E.run(); return E
+    """pyvc.run_function with the engine subclass of this file (stale contracts surface as Unsupported there)"""
+    import vlib.pyvc as _p
+    return _p.run_function(fn, spec, engine_cls=engine)
 
-def verify(rep, prop, fn, spec, engine=EngineX, timeout=60000, B=2, backend='z3-qf(typed-instantiation)'):
-    """same protocol as pyvc.verify (obligation ids, labels, verdict mapping) for an Engine subclass"""
-    rep.fn(fn)
-    try: E = run_function(fn, spec, engine)
-    except Unsupported as e:
-        rep.add(core.Ob(f'{prop}/{fn.name}/engine-subset', fn, 'pyvc', core.UNKNOWN, 0.0, detail=f'outside the engine subset: {e}', clause='function within the verified Python subset')); return []
-    res = decide_parallel(E, spec, timeout=timeout, B=B)
-    counts = {}; out = []
-    for ob, st, dt, det, mv in res:
-        k = counts.get(ob.label, 0); counts[ob.label] = k + 1
-        o = core.Ob(f'{prop}/{fn.name}/{ob.label}' + (f'#{k}' if k else ''), fn, backend, st, dt, detail=det if st != 'refuted' else f'{det}: {mv}', clause=ob.label)
-        if st == 'refuted': o.replay = dict(confirmed=False, inputs=mv, note='abstract counter-model of the contract (callees are uninterpreted); see the bounded stand-in for native inputs')
-        out.append(o); rep.add(o)
-    return out
+def verify(rep, prop, fn, spec, engine=EngineX, **kw):
+    import vlib.pyvc as _p
+    return _p.verify(rep, prop, fn, spec, engine_cls=engine, **kw)
